@@ -14,8 +14,9 @@ PROP = {
             "each placement takes ONE spelling of the kind, drawn at random, and ONE of the six combinations (with / without a path) x "
             "(start line 0, 1, 7), cycling through them (thorough: all six for about one placement in eight); each placement is a `render` case compared with "
             "the model, and the real result is checked against the placement: error and no output (Render and RenderString), LineNumber, Path, "
-            "kind of Cause, message - except that for the two kinds that fail INSIDE an included file (file with an error inside, nesting limit) "
-            "the template always has a path and the oracle does not check LineNumber (the line is one of the FILE; it is compared with the model only); "
+            "kind of Cause, message - for the two kinds that fail INSIDE an included file (file with an error inside, nesting limit) "
+            "the template always has a path; for a file with an error inside the oracle checks LineNumber = the include tag's line + the newlines of the FILE before its failing tag or object "
+            "(run_error_located_at_token; the four failing files of the layout, whose positions are known), at the nesting limit it does not check LineNumber (a line 100 levels in; it is compared with the model only); "
             "non-trivial = distinct (kind, depth, line, path/start) with an error result",
     "trusted_base": COMMON_TB + ["the placement generator's own bookkeeping of where it put the construct (offset -> line)"],
     "assumptions": ["an error inside an included file carries the line of the failing construct counted from the include tag's line and the "
@@ -32,8 +33,11 @@ TEXT = {
               '(wrapFailAt_located, wrapAt_located), a failing object is reported at its own line with the evaluation error as '
               "cause (obj_error_located, strict_undefined), a syntax error in an object is reported at the object token's line "
               'which by C05 scan_line_at is start line + preceding newlines (parse_obj_error_line). That a run is output or an '
-              'error, never both, holds in the model by construction - `run` returns a sum type, and run_output_xor_error is only '
-              'the case split over its constructors; on the real code it is the errloc oracle that checks it. Whole-template form (render_error_line_in_tree, by induction over the render '
+              'error, never both, holds in the model by construction - `run` (Render / RenderString: the entry points that RETURN a value) returns a sum type, run_output_xor_error is only '
+              'the case split over its constructors and run_error_no_output / runStd_error_no_output its reading "an error excludes output"; on the real code it is the errloc oracle that checks it. '
+              'What the type does not say is said about FRender, the entry point that writes to the caller\'s writer (frender, a program over Write calls): when FRender into a buffer ends with the error e after the '
+              'buffer has received `written` - any bytes; in the evaluated example `a\\n` has gone out when the object at line 3 fails - run returns e and nothing of `written` (run_error_discards_written), and run returns '
+              'output out exactly when FRender wrote out and ended without an error (run_ok_iff_frender_ok); that the bytes a FAILING writer accepted stay written is C20, not this property. Whole-template form (render_error_line_in_tree, by induction over the render '
               'tree, for every writer behaviour): every failure of rendering an include-free node tree, and every break/continue that '
               'reaches the top, is a located error whose line is 0 or the line of one of the tree\'s tags, objects or texts. '
               'From source bytes (run_error_at_tag_or_object, for every source text, '
@@ -42,7 +46,17 @@ TEXT = {
               'newline bytes of the source before t, the token sources partition the source, and the error names the configured path; '
               'for a template spelled from a Clean item list under GoodDelims (C19) without an include tag the error points at some item '
               'that is a tag or object (run_spell_error_at_item); with an include tag the line can be one of the included file instead '
-              '(include_error_line). Determinate form (Proofs.C07First): firstFailure walks the compiled tree in render order with the renderer\'s '
+              '(include_error_line). Sources WITH include tags (Proofs.C07Located, no hypothesis on the source, the start line or the include depth): whenever run returns an error e, '
+              'e names the path and some TAG or OBJECT token t of the source, t.line = start line + newlines of the source before t, has e.line = t.line - a construct of the template itself, '
+              'successful includes elsewhere do not shift lines (evaluated: `a\\n{% include "f" %}\\n{{ y }}` with f = two lines of text fails at line 3) - or the error is that of an included file: '
+              't is a tag NAMED include, its argument text parses to an expression that evaluates, with the variables env\' the render has there, to a string rel, the file system holds (disk, else cache) a source src\' for dir(path)/rel, '
+              'and run with one include level less on src\' PARSED AT START LINE t.line with env\' returns an error e\' with the line and path flag of e (run_error_located_at_token; the theorem applies to that run again; '
+              'evaluated on include_error_line, where no token of the source stands at the error\'s line, so the second alternative is the one that holds); on a file system whose files have no include tag, e.line = t.line + '
+              'newlines of the FILE before a tag or object token t\' of the file (run_error_located_in_file_token); for every nesting depth the line is reached along a chain of included files, each parsed at the line of the '
+              'include tag of the one before (run_error_chain, the inductive predicate ErrAt of Proofs.C07LocatedLemmas, by induction over the include levels), hence e.line >= start line for EVERY source '
+              '(run_error_line_ge_start_incl) and every error of run names the path (run_error_pathSet). Behind it: the end of the trace of a tree with include nodes is a tag or object of the tree or a site the include handler reports for an include node of the tree '
+'(fin_traceNode ... render_error_eline_or_handler, Proofs.TraceFin), the handler\'s located error or sentinel is the error of run on the file (handlerEnds_incFuel), the compile post-condition without the '
+              'no-include hypothesis (epostI_compileNode ..., Proofs.SrcCompileLinesInc), and that the include nodes of a compiled tree stand at the lines of the tag tokens named include and carry their argument text (ipost_compileNode ..., Derives.itokLines, Proofs.IncLines). Determinate form (Proofs.C07First): firstFailure walks the compiled tree in render order with the renderer\'s '
               'state - a node of a sequence is reached only when the one before it returned done; an object, assign or cycle that fails, '
               'a break/continue, the if/elsif/when clause whose test fails, the case tag whose subject fails, the loop tag whose collection '
               'or modifier fails, the include tag whose argument fails or is no string, whose file cannot be read or that stands at the nesting limit of 100 (the handler\'s error has no location there) is the site; otherwise the walk goes into '
@@ -52,7 +66,12 @@ TEXT = {
               'render_fails_at_firstFailure (every context whose include handler renders to its own buffer, every tree, every environment, '
               'fault-free writer, includes allowed): an error of Render - a failure, or a break/continue that reaches the top - is a located '
               'error whose line and path flag are those of firstFailure; run_fails_at_firstFailure: the same for run on every source that '
-              'compiles. The walk is proved against the interaction tree in Proofs/RenderTrace.lean (sp_renderNode ... sp_frenderOf). Line 0: '
+              'compiles. firstFailure is COMPLETE: it is none exactly when the render has no error (firstFailure_none_iff_no_error, same hypotheses), i.e. exactly when the render succeeds provided it does not end in the '
+              'model outcomes panic / unmodelled (firstFailure_none_iff_ok); for run on a source that compiles, firstFailure is the location of the error when run returns an error and none in every other case '
+              '(run_firstFailure_complete), and run returns output iff firstFailure is none for a run that is defined (run_ok_iff_firstFailure_none). A break/continue that reaches the top is an error of the real '
+              'engine as well (`{% break %}` alone: "break outside a loop" at the line of the tag, no output; a break on the first line of an included file: the same at the include tag\'s line - run on the real code), so firstFailure does not have to tell it from success. '
+              'The walk is proved against the interaction tree in both directions: Proofs/RenderTrace.lean (sp_renderNode ... sp_frenderOf: an error of the run stands at the end of the trace) and '
+              'Proofs/TraceExact.lean (fx_renderNode ... fx_frenderOf, traceRoot_fin_none_iff: the trace ends with a site only when the run ends with an error or a sentinel). Line 0: '
               'render_error_line_nonzero (include-free tree, no tag or object at line 0, fault-free writer: the error line is not 0 and the '
               'error names the path) and run_error_line_ge_start (source without include tag: the error line is at least the start line); with '
               'a failing writer (single-fault runs of a template that has a path or has no node at line 0) the error is located at a line of the tree with the path, or at the '
@@ -60,13 +79,13 @@ TEXT = {
               '(fault_site_in_tree, located_node_fault_sites in Proofs.C20Located: audited under C20, not under this property). '
               'Tie: the `errloc` stream places each of its 33 kinds of failing construct at every '
               'nesting depth 0..6, one (path, start line) combination per placement, compares model and real engine (kind, line, path, cause) and '
-              'checks the line against the known position (not for the two kinds that fail inside an included file: there the oracle checks error, path, kind, cause and message, and the line only through the model).'),
+              'checks the line against the known position - for an error inside an included file: the include tag\'s line plus the newlines of the file before the failing construct, as run_error_located_at_token says; not at the nesting limit: there the oracle checks error, path, kind, cause and message, and the line only through the model).'),
     "design_ref": 'DESIGN.md 6 C07',
     "note": NOTE + ('render_error_line_in_tree and run_error_at_tag_or_object are existential (the line of SOME node resp. SOME tag or object token); '
               'the determinate statement is run_fails_at_firstFailure. firstFailure reads the DECISIONS of the walk (which branch is taken, '
               'which items are visited, the state after a node) off the fault-free run of the sub-programs, and the LOCATIONS off the tree; '
               'for an include node the site is the location of the handler\'s error (what that is, is stated under C14, not here: include_render_err_located in Proofs.C14Errors, '
-              'include_missing_located in Proofs.C14, include_depth_error in Proofs.C14Depth). That firstFailure is none when the render succeeds is not stated. On line 0 of a template parsed '
+              'include_missing_located in Proofs.C14, include_depth_error in Proofs.C14Depth). firstFailure says nothing about a render that ends in the model outcomes panic or unmodelled (it is none there). run_error_located_at_token relates the error e of the template and the error e\' of the run on the included file by line and path flag only, not by cause (they are the same error whenever e\' has a line or a path: include_located_err_passes, Proofs.C14, audited under C14), and the variables env\' the file is rendered with are existential (they are those of the render at the tag: IncSite in Proofs.TraceFin says `some state`); ErrAt keeps the tokens and the file names, not the environments. On line 0 of a template parsed '
               'without a path a located error carries no information and is re-located by the enclosing block (WrapError): there the site is '
               'the enclosing block\'s tag, which is what relocate computes and what the real code does (errloc places at start line 0 too). '
               'Line 0 itself is reachable on a fault-free writer: Engine.ParseTemplate, ParseString and ParseAndRender compile at start line 0 '
